@@ -38,7 +38,7 @@ pub fn vocabulary() -> Vec<String> {
         v.push(format!("d-{c}"));
         v.push(format!("d-fill-{c}"));
     }
-    for c in COLOURS {
+    for c in COLOURS.iter().chain(["none"].iter()) {
         v.push(format!("d-text-{c}"));
         v.push(format!("d-text-ol-{c}"));
     }
@@ -65,10 +65,10 @@ fn in_vocabulary(c: &str) -> bool {
         }
         let colour = |s: &str| COLOURS.contains(&s);
         if let Some(x) = rest.strip_prefix("text-ol-") {
-            return colour(x);
+            return colour(x) || x == "none";
         }
         if let Some(x) = rest.strip_prefix("text-") {
-            return colour(x);
+            return colour(x) || x == "none";
         }
         if let Some(x) = rest.strip_prefix("fill-") {
             return colour(x) || x == "none";
